@@ -59,6 +59,8 @@ def gen(rng, sid, n, start):
         else:
             v = rndval(rng, APIW[b])
         lines.append('set %d x%s' % (b, v.hex()))
+        if rng.random() < 0.12:
+            lines.append('noinner')          # the header alone, with or without the FCS flag: still serializable and re-parsable
     return lines
 
 
@@ -117,6 +119,7 @@ def oracle(lines, lh):
     main = [l for l in lh if not l.startswith('RT') and not l.startswith('!!')]
     rts = [l for l in lh if l.startswith('RT')]
     bad = []
+    bare = False
     for i, line in enumerate(lines):
         t = line.split()
         if t[0] == 'set':
@@ -137,6 +140,11 @@ def oracle(lines, lh):
         if got != exp:
             bad.append('after op %d (%s): C++ state differs from the canonical layout of the last-write map:\n   got      %s\n   expected %s' % (i, line, got[:600], exp[:600]))
             break
+        bare = bare or t[0] == 'noinner'
+        if bare and not (1 in m and m[1][0] & 0x10):
+            # a header with nothing behind it and no FCS announced: RadioTap(buffer) asks for at least four octets behind the header
+            # (the property speaks of headers in front of an 802.11 frame); only the header state is judged
+            continue
         if i >= len(rts) or rts[i] != 'RT 1':
             bad.append('after op %d (%s): serialize + parse back: %s' % (i, line, rts[i] if i < len(rts) else '<missing>'))
             break
